@@ -1,6 +1,8 @@
 import ShVerif.Model.C16
 import ShVerif.Proofs.C16
 import ShVerif.Proofs.C16b
+import ShVerif.Proofs.C16c
+import ShVerif.Proofs.C16d
 /-
   C16 — Brace expansion matches bash.  Property theorems.  A statement that is false of the model
   (hence of the Go code: the model is tied to it on every run) is kept as `def …_statement`, with
@@ -185,12 +187,53 @@ theorem expand_canon (t : Word) (hc : canon t = true) (hno : noOv t = true) :
     rw [← denot_length, ← denot_length, hd]
   rw [this]
 
+/-- Sequence terms: whenever SplitBraces' validity test accepts `{x..y[..z]}` (endpoints and
+    increment of ordinary bytes), bash's `expand_seqterm` reads the same kind, endpoints, padding
+    width and step. -/
+theorem seq_terms_agree (elems : List Word) (hv : seqValid elems = true)
+    (hs : seqShape elems = true) : seqAgree elems = true := seqAgree_of_valid elems hv hs
+
+/-- bash side of the equivalence: on the text of a well-formed tree, bash's `brace_expand`
+    (gobbler scans, `expand_amble`, `expand_seqterm`, recursion on pieces and postscript) yields
+    the denotation. -/
+theorem bash_canon_denot (t : Word) (hc : canon t = true) :
+    bashBraces (render t) = denot t :=
+  bash_canon _ t hc (seqsAgree_of_canon t hc) (by omega)
+
+/-- `bashCount` really is the number of words bash produces — for every byte string. -/
+theorem bashCount_length (w : Bytes) : bashCount w = (bashBraces w).length := bashCount_eq w
+
 /-- "Expanding the word gives exactly the list of words bash's brace expansion gives, or an error
     only when that list would exceed the 16384-element limit" — for every literal word. -/
 def bash_equiv_statement : Prop :=
   ∀ w : Bytes, cDollar ∉ w →
     (isLimitErr (expand (splitBraces w).1) = true ↔ bashCount w > limit) ∧
     (bashCount w ≤ limit → expand (splitBraces w).1 = .ok (bashBraces w))
+
+/-- The equivalence holds for the text of every well-formed brace expression tree (`canon`: nested
+    list groups with at least two alternatives, `{x..y[..z]}` sequences that pass the validity
+    test, literals of bytes other than `{ } , . \ $`) provided no sequence overflows Int64 in the
+    Go loop (`noOv`; finding C16-seq-int64-overflow otherwise). -/
+theorem bash_equiv_partial (t : Word) (hc : canon t = true) (hno : noOv t = true) :
+    (isLimitErr (expand (splitBraces (render t)).1) = true ↔ bashCount (render t) > limit) ∧
+    (bashCount (render t) ≤ limit →
+      expand (splitBraces (render t)).1 = .ok (bashBraces (render t))) := by
+  have hb := bash_canon_denot t hc
+  have hcount : bashCount (render t) = count t := by
+    rw [bashCount_eq, hb, denot_length]
+  rw [expand_canon t hc hno, hcount, hb]
+  constructor
+  · split <;> simp_all [isLimitErr]
+  · intro hle
+    rw [if_neg (by omega)]
+
+/-- Non-vacuity: `a{b,c{1..3}}d{x,}` is such a tree. -/
+example :
+    let t : Word := [.lit [97], .brace false [[.lit [98]], [.lit [99], .brace true [[.lit [49]], [.lit [51]]]]],
+      .lit [100], .brace false [[.lit [120]], []]]
+    canon t = true ∧ noOv t = true ∧
+      render t = [97, 123, 98, 44, 99, 123, 49, 46, 46, 51, 125, 125, 100, 123, 120, 44, 125] := by
+  decide
 
 /-- `{a},}`: bash keeps scanning after a `}` that closes a group without separator and expands
     to `a}` and the empty word; SplitBraces closes the group at the first `}`
